@@ -196,7 +196,7 @@ def rule_d(repo, chk):
                 key = (m.name, repo.qual_of(x))
                 chk.ob('C20.d', key in allowed, x, 'read of the host interpreter\'s sys.path in %s is an environment entry point' % key[1],
                        'import resolution must use inference_state.get_sys_path()', key='sys.path-read|%s:%s' % key)
-    chk.floor('C20.d', n, 4, '(reads of sys.path)')
+    chk.floor('C20.d', n, 2, '(reads of sys.path)')
     g = repo.find('jedi.inference', 'InferenceState.get_sys_path')
     eb = effective_body(g)
     ok = len(eb) == 1 and 'self.project._get_sys_path(self, **kwargs)' in norm(eb[-1])
